@@ -5,7 +5,7 @@ P="$1"; C="$2"; T="${3:-quick}"
 D=$(mktemp -d /tmp/verif-mut-XXXXXX)
 cp -r /repo/reamber "$D/reamber"
 if ! (cd "$D" && patch -p1 -s --no-backup-if-mismatch < "$P" >/dev/null 2>&1); then echo "NOAPPLY $P"; rm -rf "$D"; exit 3; fi
-OUT=$(cd /verif && VERIF_REPO="$D" VERIF_EVIDENCE_DIR="$D/evidence" /venv/bin/python run_check.py "$C" "$T" 2>&1); RC=$?
+OUT=$(cd /verif && VERIF_REPO="$D" VERIF_EVIDENCE_DIR="$D/evidence" VERIF_OUT="$D/out" /venv/bin/python run_check.py "$C" "$T" 2>&1); RC=$?
 rm -rf "$D"
 if [ $RC -eq 1 ]; then echo "CAUGHT $C $(basename $(dirname $P)) :: $(echo "$OUT" | grep VIOLATION | sed 's/replay=[^ ]*//' | sort | uniq -c | sort -rn | head -3 | tr '\n' ';')"; 
 elif [ $RC -eq 0 ]; then echo "MISSED $C $(basename $(dirname $P))"; else echo "ERROR rc=$RC $C $(basename $(dirname $P)) :: $(echo "$OUT" | tail -3)"; fi
